@@ -6,12 +6,14 @@ import (
 	"encoding/json"
 	"flag"
 	"fmt"
+	"hash/fnv"
 	"os"
 	"path/filepath"
 	"regexp"
 	"runtime"
 	"runtime/debug"
 	"sort"
+	"strconv"
 	"strings"
 	"sync"
 	"testing"
@@ -120,7 +122,11 @@ type Rec struct {
 	SimTime   time.Duration
 	Quiet     bool
 	Property  string
-	Known     map[string]int // known findings met in this run (id -> count)
+	// CaseKey, if set, identifies the generated case (inputs, damage, fault plan) of this run; it is
+	// combined with the event-log hash when distinct cases are counted (runs that do all their work in
+	// pass-through mode have no scheduling events to tell them apart)
+	CaseKey string
+	Known   map[string]int // known findings met in this run (id -> count)
 	mu        sync.Mutex
 }
 
@@ -273,6 +279,11 @@ func Main(t *testing.T, property string, run RunFunc) {
 				sum.Stats[k] += v
 			}
 			h := rec.Sim.Hash()
+			if rec.CaseKey != "" {
+				ck := fnv.New64a()
+				_, _ = ck.Write([]byte(rec.CaseKey))
+				h = h + ":" + strconv.FormatUint(ck.Sum64(), 16)
+			}
 			hashes[h] = true
 			faults := 0
 			for k, v := range rec.Sim.Stats() {
